@@ -444,7 +444,7 @@ class AdnlWorld(HistoryWorld):
                     self.V(ctx, 'signature-shape', route, 'encoding-' + op.get('enc', 'hex'), 'the %s-encoded signature decodes to %d bytes (expected 64)' % (op.get('enc'), len(sig)))
                     return
         else:
-            ok, sig = call(sign_message, msg, seed + pub)
+            ok, sig = call(sign_message, message=msg, signing_key=seed + pub) if len(msg) % 3 == 0 else call(sign_message, msg, seed + pub)
         if not ok:
             self.V(ctx, 'sign-fails', route, 'len-%d' % min(len(msg), 64), 'signing raised %r' % (sig,))
             return
@@ -453,7 +453,10 @@ class AdnlWorld(HistoryWorld):
             self.V(ctx, 'signature-shape', route, 'len', 'the signing helper returned %r... (expected 64 bytes)' % (sig[:8],))
             return
         n_eval = 1
-        ok, r = call(verify_sign, pub, msg, sig)
+        if len(msg) % 2:
+            ok, r = call(verify_sign, public_key=pub, signed_message=msg, signature=sig)     # keyword spelling
+        else:
+            ok, r = call(verify_sign, pub, msg, sig)
         if not (ok and r is True):
             self.V(ctx, 'valid-signature-rejected', route, 'matching-key', 'verify_sign under the matching key returned %r' % (r,))
             return
